@@ -596,7 +596,8 @@ func withTriviaKinds(rng *rand.Rand, src []byte, fam int, mode int) [][]byte {
 			}
 			gap := src[prev:t.S]
 			// before 7.3 only `;` or a newline may follow the closing label, and a newline must follow that `;`
-			afterEnd := (i > 0 && lt[i-1].ID == token.T_END_HEREDOC && fam == 5) || (i > 1 && lt[i-2].ID == token.T_END_HEREDOC && lt[i-1].ID == token.ID(';'))
+			// (the variant of a php7 sentence is parsed under 7.4, where anything may follow the closing label and its `;`)
+			afterEnd := fam == 5 && ((i > 0 && lt[i-1].ID == token.T_END_HEREDOC) || (i > 1 && lt[i-2].ID == token.T_END_HEREDOC && lt[i-1].ID == token.ID(';')))
 			free := !inStr && t.ID != token.T_END_HEREDOC && t.ID != token.T_ENCAPSED_AND_WHITESPACE && t.ID != token.T_INLINE_HTML && !afterEnd && t.S > 6 &&
 				!strings.HasPrefix(t.Value, "<?") && !(i > 0 && lt[i-1].ID == token.T_INLINE_HTML) && i > 0 && lt[i-1].ID != token.T_START_HEREDOC
 			if t.ID == token.ID('"') || t.ID == token.ID('`') {
